@@ -15,6 +15,7 @@ import ast
 import os
 
 from . import absint as A
+from . import stratoms as SA
 from .model import Module, FunctionInfo
 from .report import AnalysisError, VERIF
 
@@ -402,16 +403,36 @@ def _compare_paths(live_paths, ref_paths, effects, outcome_norm, rn,
                             "assertion"},
                     "live_paths": len(live_paths),
                     "ref_paths": len(ref_paths)}
+    lang_rows = [0, 0]
     for lp, lval, known, unk, lo in lvals:
         for rval, ro in rvals:
             if not _compatible(rval, known):
                 continue
+            decided = None
+            if unk and all(SA.translatable(a) for a in unk):
+                # string observations on a parameter, written differently
+                # from the reference's: joint feasibility is decided on
+                # their regular languages (zcstatic.stratoms)
+                decided = SA.joint_witness(lval, rval)
+                if decided is False:
+                    lang_rows[0] += 1
+                    continue
             rows += 1
+            if decided:
+                lang_rows[1] += 1
             if ro != lo:
                 w = {"valuation": {A.fmt_atom(a): v for a, v in lval.items()},
                      "reference_valuation": {A.fmt_atom(a): v
                                              for a, v in rval.items()},
                      "live": _show(lo), "reference": _show(ro)}
+                if decided:
+                    w["input"] = decided
+                    w["note"] = ("both paths are taken by this input (joint "
+                                 "feasibility decided on the regular "
+                                 "languages of the string observations)")
+                    return {"verdict": "violation", "rows": rows,
+                            "witness": w, "live_paths": len(live_paths),
+                            "ref_paths": len(ref_paths)}
                 if unk and not (independent is not None
                                 and all(independent(a) for a in unk)):
                     unknown.setdefault(tuple(sorted(A.fmt_atom(a)
@@ -476,7 +497,9 @@ def _compare_paths(live_paths, ref_paths, effects, outcome_norm, rn,
                 "witness": w, "live_paths": len(live_paths),
                 "ref_paths": len(ref_paths)}
     return {"verdict": "equivalent", "rows": rows,
-            "live_paths": len(live_paths), "ref_paths": len(ref_paths)}
+            "live_paths": len(live_paths), "ref_paths": len(ref_paths),
+            "language_decided_rows": lang_rows[1],
+            "language_infeasible_pairs": lang_rows[0]}
 
 
 def case_sensitive_atoms(program, fi, **kw):
